@@ -499,3 +499,43 @@ def install_batch4(w):
             props=["C10"],
         )
     )
+
+    install_sha(w)
+
+
+def install_sha(w):
+    from sqlglot import exp
+
+    E = exp.Expression
+    THIS = "arg(expression, 'this')"
+    XS = "node_expressions(expression)"
+    NEW = ["*.parent", "$ghost:$treever"]
+    LEN = "arg(expression, 'length')"
+    S2 = f"(isinstance(expression, exp.SHA2) and (not has_arg(expression, 'length') or arg({LEN}, 'this') == '256'))"
+    ARGS_OK = f"(seq_len({XS}) == 1 or (seq_len({XS}) == 2 and arg(seq_at({XS}, 1), 'this') == '256'))"
+    HEX = f"(isinstance(expression, exp.Anonymous) and upper({THIS}) == 'SHA2_HEX' and {ARGS_OK})"
+    BIN = f"(isinstance(expression, exp.Anonymous) and upper({THIS}) == 'SHA2_BINARY' and {ARGS_OK})"
+    w.add_contract(
+        Contract(
+            "fakesnow.transforms.sha256",
+            params={"expression": E},
+            # field shapes (A-SQLGLOT 1): an Anonymous call's name is a str and its arguments are nodes; SHA2's length is a node when present
+            requires=[f"seq_len({XS}) >= 0",
+                      f"implies(isinstance(expression, exp.Anonymous), isinstance({THIS}, str))",
+                      f"implies(isinstance(expression, exp.Anonymous) and seq_len({XS}) >= 1, isinstance(seq_at({XS}, 0), exp.Expression))",
+                      f"implies(isinstance(expression, exp.Anonymous) and seq_len({XS}) >= 2, isinstance(seq_at({XS}, 1), exp.Expression))",
+                      f"implies(isinstance(expression, exp.SHA2) and has_arg(expression, 'length'), isinstance({LEN}, exp.Expression))"],
+            result=E,
+            modifies=NEW,
+            ensures={
+                # only the 256-bit digest is answered: SHA2(x) / SHA2(x, 256) / SHA2_HEX(x[, 256]) by sha256(x), SHA2_BINARY by unhex(sha256(x));
+                # any other digest length is left for DuckDB to reject
+                "C10.sha2.hex": f"implies(old({S2}), is_fresh(result) and cls_is(result, SHA256) and arg(result, 'this') is old({THIS}))",
+                "C10.sha2_hex.hex": f"implies(not old({S2}) and old({HEX}), is_fresh(result) and cls_is(result, SHA256) and arg(result, 'this') is old(seq_at({XS}, 0)))",
+                "C10.sha2_binary.unhex": f"implies(not old({S2}) and not old({HEX}) and old({BIN}), is_fresh(result) and cls_is(result, exp.Unhex) and cls_is(arg(result, 'this'), SHA256) "
+                f"and arg(arg(result, 'this'), 'this') is old(seq_at({XS}, 0)))",
+                "C10.sha2.else_untouched": f"implies(not old({S2}) and not old({HEX}) and not old({BIN}), result is expression)",
+            },
+            props=["C10"],
+        )
+    )
